@@ -49,6 +49,7 @@ class Writer:
         self.inject = inject or {}
         self.slots = []          # slot kinds, index = slot number
         self.out = []            # output lines
+        self.marks = []          # (index into out, ctx) of every logical line written through emit()
         self.depth = 0
         self.case_sensitive = set(case_sensitive)
         self.last_lit = None
@@ -151,6 +152,7 @@ class Writer:
             inj = self.slot('eol:' + ctx)
             if inj:
                 text = text + ' ' + inj
+        self.marks.append((len(self.out), ctx))
         self.out.append(ind + text)
 
     def settings(self, items, ctx):
@@ -607,3 +609,10 @@ def render_with_slots(doc, seed=0, knobs=None, case_sensitive=(), want_writer=Fa
     if want_writer:
         return text, list(w.slots), w
     return text, list(w.slots)
+
+
+def render_lines(doc, seed=0, knobs=None):
+    """-> (list of output items, {index: ctx}) : the logical lines as written (an item may span several physical lines)"""
+    w = Writer(seed, knobs)
+    w.document(doc)
+    return list(w.out), dict(w.marks)
